@@ -11,6 +11,7 @@ import Torf.Lemmas.Dump
 import Torf.Lemmas.BencodeSmallMono
 import Torf.Lemmas.Explicit
 import Torf.Lemmas.ExplicitValidate
+import Torf.Lemmas.WriteInfo
 import Torf.Model.ReadStream
 namespace Torf.C06
 open Torf Torf.Bencode Torf.Codec Torf.ReadStream
@@ -430,6 +431,66 @@ theorem C06_explicit_any_dump_counterexample : ¬ C06_explicit_any_dump_full := 
   revert h2
   decide +kernel
 
+/-! ### "…inside the dumped *or written* file": `Torrent.write()` when the operating system may refuse
+    or take only part of the bytes
+
+  `WriteInfo.writeFile env md validate ov t` is C17's effect model of `Torrent.write` (what is at the
+  path, the answer of `os.path.exists`, `open` fails, the opened file accepts `k` bytes, `close`
+  fails — all of them universally quantified inputs `t`) fed with this property's `dump`. -/
+
+/-- **A normal return of `write()` means the file holds exactly `dump()`'s bytes** — whatever was at
+    the path (where a regular file can be) and whatever the operating system answered; and every
+    other outcome is `WriteError`, or `dump`'s `MetainfoError` with the target untouched. -/
+theorem C06_write_exact_or_error (env : Env) (md : List (PyVal × PyVal)) (validate ov : Bool)
+    (t t' : Write.Target) (r : Except Export.ErrKind Unit) (log : List Write.Eff)
+    (hreg : t.node.regular = true)
+    (h : WriteInfo.writeFile env md validate ov t = (r, t', log)) :
+    (r = .ok () ∧ ∃ bs, dump env md validate = .ok bs ∧ t'.node = .file bs) ∨
+    r = .error .write ∨
+    (r = .error .metainfo ∧ t' = t ∧ dump env md validate = .error .metainfo) := by
+  rcases WriteInfo.writeFile_cases env md validate ov t t' r log h with h1 | h2 | ⟨h3, c, hd, hn, _⟩
+  · exact .inr (.inl h1)
+  · exact .inr (.inr h2)
+  · refine .inl ⟨h3, c, hd, ?_⟩
+    rw [hn]; simp [Write.Node.store, hreg]
+
+/-- a short write is never a success: if the opened file accepts fewer bytes than `dump()` produced
+    (file size limit, full disk, quota), `write()` raises `WriteError` -/
+theorem C06_write_short_is_error (env : Env) (md : List (PyVal × PyVal)) (validate ov : Bool)
+    (t t' : Write.Target) (r : Except Export.ErrKind Unit) (log : List Write.Eff) (bs : Bytes) (q : Nat)
+    (hd : dump env md validate = .ok bs) (hq : t.env.quota = some q) (hlt : q < bs.length)
+    (h : WriteInfo.writeFile env md validate ov t = (r, t', log)) : r = .error .write := by
+  rcases WriteInfo.writeFile_cases env md validate ov t t' r log h with h1 | ⟨_, _, h2⟩ | ⟨_, c, hc, _, hacc, _⟩
+  · exact h1
+  · rw [hd] at h2; exact absurd h2 (by simp)
+  · have : c = bs := Except.ok.inj (hc.symm.trans hd)
+    subst this
+    simp only [Write.Env.accepts, hq] at hacc
+    omega
+
+/-- **The written file carries the info dictionary whose SHA-1 is reported.**  For every metainfo
+    that is a Python dict, every stored hash, every target and every behaviour of the operating
+    system: if `write(filepath)` (validating) returns normally, the file content `bs` is canonical
+    bencoding, the strict parser finds the value of `info` at a span `(o, l)`, and `infohash`,
+    `infohash_base32`, `magnet().xt` are those of the SHA-1 of exactly `bs[o : o+l]`. -/
+theorem C06_written_file (env : Env) (H : Bytes → Bytes) (md : List (PyVal × PyVal))
+    (explicit : Option Bytes) (ov : Bool) (t t' : Write.Target) (log : List Write.Eff)
+    (hw : wf (.dict (ensureInfo md)) = true) (hval : ValidInfoDict env md)
+    (hreg : t.node.regular = true)
+    (h : WriteInfo.writeFile env md true ov t = (.ok (), t', log)) :
+    ∃ bs o l e, t'.node = .file bs ∧ CanonBytes env.lim bs ∧
+      spanOf env.lim kInfo bs = some (o, l) ∧
+      infohashOf env H md explicit = .ok (Base32.hexLower (H ((bs.drop o).take l))) ∧
+      infohashBase32Of env H md explicit = .ok e ∧
+      Base32.b32decode e = some (H ((bs.drop o).take l)) ∧
+      ((∀ x, (H x).length = 20) →
+        magnetXtOfE env H md explicit = .ok (urnBtih ++ Base32.hexLower (H ((bs.drop o).take l)))) := by
+  rcases C06_write_exact_or_error env md true ov t t' _ log hreg h with ⟨_, bs, hd, hn⟩ | h2 | ⟨h3, _⟩
+  · obtain ⟨o, l, e, hs, hi, hb, hdec, hm⟩ := C06_explicit_span_validated env H md explicit bs hw hval hd
+    exact ⟨bs, o, l, e, hn, C06_canonical env md true bs hw hd, hs, hi, hb, hdec, hm⟩
+  · exact absurd h2 (by simp)
+  · exact absurd h3 (by simp)
+
 /-! ### non-vacuity -/
 
 /-- non-vacuity of `C06_span`, `C06_magnet`, `C06_magnet_ok`, `C06_base32`, `C06_base32_shape`:
@@ -463,5 +524,14 @@ example : ValidInfoDict exEnv exMd ∧ exEnv.validate (.dict (ensureInfo exMd)) 
     infohashOf stubEnv exH stubMd (some (List.replicate 40 65)) = .ok (List.replicate 40 65) :=
   ⟨fun _ => ⟨[(.str "name", .str "a"), (.str "piece length", .int 16384)], rfl⟩, rfl, ok_of_toOption (by decide +kernel), ok_of_toOption (by decide +kernel),
    ok_of_toOption (by decide +kernel), by simp [infoBytes, stubEnv], by simp [infohashOf, infohash, infoBytes, stubEnv]⟩
+
+/-- non-vacuity of `C06_write_exact_or_error` (first disjunct), `C06_written_file` and
+    `C06_write_short_is_error`: on `exMd`, writing over an existing file succeeds when the
+    operating system takes everything and leaves `exDump`; with a quota of 10 bytes it is an error. -/
+example :
+    (WriteInfo.writeFile exEnv exMd true true ⟨.file [1, 2, 3], { existsAns := true }⟩).1.toBool = true ∧
+    (WriteInfo.writeFile exEnv exMd true true ⟨.file [1, 2, 3], { existsAns := true }⟩).2.1.node = .file exDump ∧
+    (WriteInfo.writeFile exEnv exMd true true ⟨.absent, { existsAns := false, quota := some 10 }⟩).1.toBool = false :=
+  ⟨by decide +kernel, by decide +kernel, by decide +kernel⟩
 
 end Torf.C06
